@@ -56,6 +56,12 @@ def mk_ids(rng, kind, n):
 		return np.arange(5, 5 + n, dtype=np.int32)
 	if kind == 'u8':
 		return np.arange(2 ** 40, 2 ** 40 + n, dtype=np.uint64)
+	if kind == 'u8top':
+		# hash-like ids spread over the whole unsigned 64-bit range, incl. values >= 2^63 and 2^64-1
+		vals = [2 ** 64 - 1, 2 ** 63, 2 ** 63 - 1, 2 ** 63 + 12345, 0] + [rng.randrange(2 ** 64) for _ in range(n)]
+		return np.array(vals[:n], dtype=np.uint64)
+	if kind == 'i8neg':
+		return np.array([-(2 ** 63), -1, 0, 2 ** 63 - 1] [:n] + list(range(max(0, n - 4))), dtype=np.int64)
 	raise ValueError(kind)
 
 
@@ -217,7 +223,15 @@ def run(ctx):
 				idx.append({'t': 'slice', 'a': rng.choice([None, rng.randint(-n - 1, n + 1)]), 'b': rng.choice([None, rng.randint(-n - 1, n + 1)]), 'c': rng.choice([None, 1, 2, -1, -2])})
 			else:
 				idx.append({'t': 'ints', 'l': [rng.randint(-n, n - 1) for _ in range(rng.randint(0, 4))], 'form': rng.choice(['list', 'i8'])})
+		if n >= 3:
+			# an index list that is not a consecutive run although its end points are len-1 apart (permuted / with repeats)
+			a = rng.randint(0, n - 3)
+			ln = rng.randint(3, n - a)
+			mid = [rng.randint(a, a + ln - 1) for _ in range(ln - 2)] if rng.random() < 0.5 else rng.sample(range(a + 1, a + ln - 1), ln - 2)
+			idx.append({'t': 'ints', 'l': [a] + mid + [a + ln - 1], 'form': rng.choice(['list', 'i8'])})
+			neg = [x - n for x in [a] + mid[::-1] + [a + ln - 1]]
+			idx.append({'t': 'ints', 'l': neg, 'form': 'list'})
 		comp = rng.choice([None, None, 'gzip', 'lzf'])
 		sub({'kind': 'rt', 'k': k, 'prefix': rng.choice(['A', 'AT', 'ATGAC', 'GGC']), 'sigs': sigs, 'cont': rng.choice(['array', 'list', 'annotated-array', 'annotated-list']),
-		     'ids': rng.choice(['default', 'strlist', 'intlist', 'U', 'S', 'O', 'i4', 'u8']), 'ids_seed': rng.randrange(10 ** 6), 'meta': meta,
+		     'ids': rng.choice(['default', 'strlist', 'intlist', 'U', 'S', 'O', 'i4', 'u8', 'u8top', 'i8neg']), 'ids_seed': rng.randrange(10 ** 6), 'meta': meta,
 		     'compression': comp, 'compression_opts': rng.choice([None, 1, 9]) if comp == 'gzip' else None, 'indexes': idx}, 'roundtrip')
